@@ -13,6 +13,9 @@ Rules
   Y5  initialisation formulas: step = sign(direction) (decided on the cells  <0, =0, >0  of the direction component, plus a witness
       just beyond any other constant the comparison uses), tMax = (cell border in step direction - origin)/direction,
       tDelta = resolution/|direction|; direction = (end - origin)/|end - origin|
+  Y6  the centre table the caster reads for its first border crossings (GridIndexMapping): the table rules of C13 (closed form of the
+      index, single writer, agreement with the index map, extent margins) evaluated under this rule name with THIS property's sizes
+      (2000 cells per axis, coordinates up to 20 at the finest resolution, tolerance 1% of the finest cell: crossing order is at stake)
 Not decided: never leaving the grid / only crossed cells / ending in the end cell (depend on the floating-point crossing parameters)."""
 import itertools
 import sympy as sp
@@ -21,7 +24,7 @@ from ..tree import sx, walk, pp, short_fn, strip_casts, const_value
 from .C20 import deep_unwrap
 
 LEVEL = 'other'
-UNITS = ['src/containers/grid/RayTracing.cpp']
+UNITS = ['src/containers/grid/RayTracing.cpp', 'src/containers/grid/GridIndexMapping.cpp']
 ENGINES = 'E-ORD + E-SIB + E-STATE + E-ALG over romea-facts'
 TECHNIQUE = 'exhaustive evaluation of the extracted next() decision tree on all weak orders of its operands; must-pass-through and state-completeness on setEndPoint/cast; formula extraction for the initialisation'
 EXPLANATION = ('The four next() specialisations are read as decision trees and evaluated on every weak order of (tMax0,tMax1[,tMax2]); the cast()/setEndPoint() protocol is checked by '
@@ -44,7 +47,37 @@ def weak_orders(n):
     return sorted(out)
 
 
+class _Remap6:
+    """Forwards C13's verdicts under rule Y6."""
+
+    def __init__(self, R):
+        self.R = R
+
+    def holds(self, rule, inst, *a, **k):
+        self.R.holds('Y6', '%s[%s]' % (inst, rule), *a, **k)
+
+    def violated(self, rule, inst, *a, **k):
+        self.R.violated('Y6', '%s[%s]' % (inst, rule), *a, **k)
+
+    def undecided(self, rule, inst, *a, **k):
+        self.R.undecided('Y6', '%s[%s]' % (inst, rule), *a, **k)
+
+    def check(self, cond, rule, inst, *a, **k):
+        return self.R.check(cond, 'Y6', '%s[%s]' % (inst, rule), *a, **k)
+
+    def form(self, cond, rule, inst, *a, **k):
+        return self.R.form(cond, 'Y6', '%s[%s]' % (inst, rule), *a, **k)
+
+    def used(self, *f):
+        self.R.used(*f)
+
+    def floor(self, rule, n):
+        pass
+
+
 def run(fx, R, tier):
+    from . import C13
+    C13.run(fx, _Remap6(R), tier, cells=2000, coord=20, tol=1e-4, what='1% of the finest cell (1e-4): the order of the border crossings is at stake')
     R.floor('Y1', 32)
     classes = sorted(q for q in fx.records if q.startswith('romea::core::RayCasting<'))
     if len(classes) != 4:
@@ -273,6 +306,26 @@ def check_set_end_point(fx, R, cq, cname, dim, f):
             for x in states:
                 nxt += rd.ex(s, x, ctx)
             states = nxt
+        early = [x for x in states if x.returned]
+        if early and len(states) - len(early) == 1:
+            # a path that leaves before the per-axis initialisation: legitimate only if its condition establishes that origin and end are in
+            # the same cell (equal cell indexes, or coincident points); a bound on the DISTANCE does not (two points closer than one cell
+            # can sit on both sides of a border)
+            for x in early:
+                desc = ' && '.join(('' if c[2] else '!') + '(' + c[0] + ')' for c in x.cond)
+                idx_cmp = any('Indexes' in c[0] for c in x.cond)
+                dist = [c for c in x.cond if isinstance(c[1], (sp.Lt, sp.Le, sp.Gt, sp.Ge)) and not idx_cmp]
+                exact = [c for c in x.cond if isinstance(c[1], (sp.Eq,)) or (isinstance(c[1], sp.Ne) and not c[2])]
+                steps_zero = all(x.fields.get(('this', 'rayStep_[%d]' % k_)) in (0, None) for k_ in range(dim)) or any('rayStep_' in '.'.join(map(str, p_)) for p_ in x.fields)
+                if dist and not exact and not idx_cmp:
+                    R.violated('Y4', '%s::setEndPoint:distance-shortcut' % cname.split('<')[0], 'under `%s` setEndPoint() returns before the per-axis initialisation (no stepping is set up); the condition bounds the '
+                               'DISTANCE between origin and end, which does not put them in the same cell: a ray shorter than one cell that crosses a border (or several, near a corner) then repeats its origin '
+                               'cell instead of moving to the face-adjacent one and does not end in the cell of the end point [%s]' % (desc, cname), fx.rel(f['loc']), 'E-ORD')
+                elif idx_cmp or exact:
+                    R.holds('Y4', cname + '::setEndPoint:shortcut[%s]' % desc, 'early exit only for equal cell indexes / coincident points', fx.rel(f['loc']), 'E-ORD')
+                else:
+                    R.undecided('Y4', cname + '::setEndPoint:shortcut', 'early exit under `%s`' % desc)
+            states = [x for x in states if not x.returned]
         if len(states) != 1:
             R.undecided('Y4', cname + '::setEndPoint', 'prologue forks')
             return
